@@ -83,6 +83,23 @@ def search(run, info):
                 seen.add(f[0])
         chosen.append(("LEX", "lexical error", lexical))
         chosen.append(("SYN", "syntax error", syntax))
+        # text that is no token at a place where the tokens around it still form a valid program: a lexical error all the same
+        base_valid = gen_sem.render(u)
+        bl = base_valid.split("\n")
+        sites = [j for j, l in enumerate(bl) if l.endswith(";")]
+        if sites:
+            j = rng.choice(sites)
+            junk = rng.choice(["?", "~", "\\", "`", "?? !"])
+            how = rng.randrange(3)
+            ll = list(bl)
+            if how == 0:
+                ll[j] = ll[j][:-1] + " " + junk + ";"            # before the ';' of a statement or declaration
+            elif how == 1:
+                ll.insert(j + 1, junk)                           # on a line of its own
+            else:
+                ll.append(junk)                                  # at the end of the file
+            chosen.append(("LEX", "text that is no token (%r) where the remaining tokens form a valid program" % junk, "\n".join(ll)))
+        chosen.append(("LEX", "a file of a single invalid character", "?\n"))
         for code, what, ftext in chosen:
             comps = rng.sample(pool_texts, ncomp)
             if code == "P0015":
